@@ -18,6 +18,12 @@ fn strategy() -> BoxedStrategy<TreeCase> {
   sms_inner(cfg).prop_map(move |spec| TreeCase { spec: normalize(spec, cfg) }).boxed()
 }
 
+/// the same, with the outer map relative to a sourceRoot and the inner source named by the joined name
+fn rooted_strategy() -> BoxedStrategy<TreeCase> {
+  let cfg = GenCfg { max_tokens: 12, ..GenCfg::positional() };
+  (sms_inner(cfg), 0u8..5u8).prop_map(move |(spec, style)| TreeCase { spec: crate::gen::rooted_inner(normalize(spec, cfg), style) }).boxed()
+}
+
 fn strip(a: &crate::observe::AttrFull) -> Attr {
   crate::observe::strip(a)
 }
@@ -35,14 +41,18 @@ impl Prop for C09 {
      of the case JSON".into()
   }
   fn legs(&self, _tier: Tier) -> Vec<Leg<TreeCase>> {
-    vec![Leg { name: "(outer, inner) pairs", source: Cases::Generated(Box::new(strategy), 600_000, 8_000_000) }]
+    vec![
+      Leg { name: "(outer, inner) pairs", source: Cases::Generated(Box::new(strategy), 600_000, 8_000_000) },
+      Leg { name: "(outer, inner) pairs, outer map with a sourceRoot", source: Cases::Generated(Box::new(rooted_strategy), 150_000, 2_000_000) },
+    ]
   }
   fn check(&self, case: &TreeCase) -> CheckResult {
     let Spec::SmsInner { text, name: gname, map: outer, original, inner, remove } = &case.spec else {
       return Err("harness: C09 case must be SmsInner".into());
     };
     // the original text: given, or taken from the outer sourcesContent
-    let w = outer.sources.iter().position(|s| s == gname);
+    // (the inner source is the outer entry whose name, with the outer sourceRoot applied, is `name`)
+    let w = (0..outer.sources.len()).position(|i| src_name(outer, i as u32) == *gname);
     let orig: String = original.clone().or_else(|| w.and_then(|w| outer.contents.get(w).cloned())).unwrap_or_default();
     let (pos, _) = positions(text);
     let ocv = cover(&outer.segs, text);
@@ -73,7 +83,7 @@ impl Prop for C09 {
           continue;
         };
         let oname = oa.name.map(|x| name_str(outer, x));
-        if outer.sources.get(oa.src as usize).map(|s| s.as_str()) != Some(gname.as_str()) {
+        if (oa.src as usize) >= outer.sources.len() || src_name(outer, oa.src) != *gname {
           // another source: passes through unchanged
           used_other = true;
           let want: Attr = Some((src_name(outer, oa.src), oa.line, oa.col, oname.clone()));
@@ -182,6 +192,7 @@ impl Prop for C09 {
         .class(kept_outer_name, "an outer name is kept because it is the text at the original position")
         .class(original.is_none(), "original source taken from outer sourcesContent")
         .class(inner.root.as_deref().is_some_and(|r| !r.is_empty()), "inner sourceRoot")
+        .class(outer.root.as_deref().is_some_and(|r| !r.is_empty()), "outer sourceRoot (inner source named by the joined name)")
         .class(
           inner.sources.iter().any(|i| outer.sources.iter().any(|o| o != gname && root_join(inner.root.as_deref(), i) == *o)),
           "a file of the inner map has the name of a file the outer map passes through",
